@@ -38,7 +38,10 @@ POS = ((0.0, 0.0), (1.0, 0.0), (0.0, 6.0), (11.0, 0.0), (NAN, 0.0), (NAN, NAN))
 
 # test -> dict(alphabet, cfgs, rel=set of relations, nbhd=locality kind)
 T = {
-    "spike_test": dict(al=SIG5, cfgs=[dict(suspect_threshold=1, fail_threshold=2), dict(suspect_threshold=0.5, fail_threshold=1.5, method="differential")],
+    "spike_test": dict(al=SIG5, cfgs=[dict(suspect_threshold=1, fail_threshold=2), dict(suspect_threshold=0.5, fail_threshold=1.5, method="differential"),
+                                      # thresholds in the other order (fail below suspect), only one of them, and zero
+                                      dict(suspect_threshold=4, fail_threshold=0.5), dict(suspect_threshold=3.5, fail_threshold=1, method="differential"),
+                                      dict(fail_threshold=1.5), dict(suspect_threshold=0)],
                        rel=("voff", "neg", "rev", "local"), nb="pm1"),
     "rate_of_change_test": dict(al=SIG4, cfgs=[dict(threshold=0.5), dict(threshold=1 / 60)], rel=("voff", "neg", "toff", "local"), nb="succ"),
     "flat_line_test": dict(al=SIG4, cfgs=[dict(suspect_threshold=60, fail_threshold=120, tolerance=2), dict(suspect_threshold=120, fail_threshold=60, tolerance=1)],
@@ -47,7 +50,8 @@ T = {
                                                   dict(suspect_threshold=1.3, fail_threshold=0.6, test_period=180, check_type="range", min_obs=2),
                                                   dict(suspect_threshold=1.3, fail_threshold=0.6), dict(suspect_threshold=2.5, fail_threshold=1.3, check_type="range")],
                                    rel=("voff", "neg", "toff", "local"), nb="window_att"),
-    "density_inversion_test": dict(al=(0.0, 1.0, 2.0, NAN), cfgs=[dict(suspect_threshold=-0.5, fail_threshold=-1), dict(suspect_threshold=0.5)],
+    "density_inversion_test": dict(al=(0.0, 1.0, 2.0, NAN), cfgs=[dict(suspect_threshold=-0.5, fail_threshold=-1), dict(suspect_threshold=0.5),
+                                                                  dict(suspect_threshold=-1.5, fail_threshold=-0.5), dict(fail_threshold=0)],
                                    rel=("voff", "local"), nb="pm1"),
     "speed_test": dict(al=POS, cfgs=[dict(suspect_threshold=10, fail_threshold=1000)], rel=("toff", "local"), nb="succ"),
     "location_test": dict(al=POS, cfgs=[dict(bbox=[-10, -5, 10, 5]), dict(bbox=[-10, -5, 10, 5], range_max=200_000), dict(range_max=100)],
